@@ -168,15 +168,28 @@ func runReplay(path string, wantSnap bool) (*historyResult, error) {
 		case "disconnect":
 			w.disconnect(client(p[1]))
 		case "http":
-			// http hN GET <rid> | http hN GET404 : re-issue as a path
-			if len(p) > 3 {
-				rid := p[3]
+			// http hN GET|HEAD <rid> | http hN POST <rid> <action> <params> | http hN GET404|POST404
+			ridPath := func(rid string) (string, string) {
 				name, query := rid, ""
 				if i := strings.IndexByte(rid, '?'); i >= 0 {
 					name, query = rid[:i], rid[i+1:]
 				}
-				w.httpGet("/api/"+strings.ReplaceAll(name, ".", "/"), query)
-			} else {
+				return "/api/" + strings.ReplaceAll(name, ".", "/"), query
+			}
+			switch {
+			case len(p) > 5 && p[2] == "POST":
+				path, query := ridPath(p[3])
+				body := strings.Join(p[5:], " ")
+				if body == "-" {
+					body = ""
+				}
+				w.httpDo("POST", path+"/"+p[4], query, body)
+			case len(p) > 3:
+				path, query := ridPath(p[3])
+				w.httpDo(p[2], path, query, "")
+			case len(p) > 2 && p[2] == "POST404":
+				w.httpDo("POST", "/api/m/a/", "", "")
+			default:
 				w.httpGet("/api/m/a/", "")
 			}
 		case "evict":
